@@ -118,8 +118,13 @@ Inductive call := CProcess (i : nat) | CCancel (i : nat).
 (* OIter k    fresh iter(session), at most k batches (None: to exhaustion); the generator stays suspended if not exhausted
    OResume    next() on that generator
    OExch rej  session.exchange(input); rej = what _coerce_input_batch raises for this input (None: accepted)
-   OClose / OCancel *)
-Inductive op := OIter (k : option nat) | OResume | OExch (rej : option exn) | OClose | OCancel.
+   OClose / OCancel
+   OCancelF d HTTP only: cancel() whose POST raises in the client (swallowed, best effort); d = the request was delivered
+              to the server before the failure (response lost) / never delivered.  (Socket model: same as OCancel.)
+   ONext      HTTP only: session.next_with_token() -- one batch per call, (None, None) = [EDone] at end of stream.
+              (Socket model: one tick.) *)
+Inductive op := OIter (k : option nat) | OResume | OExch (rej : option exn) | OClose | OCancel | OCancelF (delivered : bool) | ONext.
+Definition is_cancel_op (o : op) : bool := match o with OCancel | OCancelF _ => true | _ => false end.
 
 Definition ProtocolError := s "ProtocolError".
 Definition refused : event := EError ProtocolError (s "Stream has been closed or cancelled").
@@ -207,7 +212,8 @@ Definition pstep (producer : bool) (c : cb) (o : op) (st : pst) : seg * pst :=
       end
   | OExch rej => let '(es, cs, st1, _) := do_tick c false rej st in ((es, cs), st1)
   | OClose => let '(es, cs, st1) := do_close c false st in ((es, cs), st1)
-  | OCancel => let '(es, cs, st1) := do_close c true st in ((es, cs), st1)
+  | OCancel | OCancelF _ => let '(es, cs, st1) := do_close c true st in ((es, cs), st1)
+  | ONext => let '(es, cs, st1, _) := do_tick c true None st in ((es, cs), st1)
   end.
 
 Fixpoint run_ops {S : Type} (f : op -> S -> seg * S) (ops : list op) (st : S) : list seg * S :=
@@ -345,6 +351,21 @@ Fixpoint hiter (n : nat) (fixed : bool) (cfg : httpcfg) (sts : list step) (c : c
       end
   end.
 
+(* next_with_token: the whole continuation response is read; at most one data batch, the token is remembered *)
+Inductive ntres := NtOk (d : option batch) (t : option nat) | NtErr (e : event) | NtMulti | NtStop.
+Fixpoint hnt_scan (c : cb) (fs : list frame) (data : option batch) (tok : option nat) : list event * ntres :=
+  match fs with
+  | [] => ([], NtOk data tok)
+  | FLog m :: r =>
+      let '(e, go) := log_event c m in
+      if go then let '(es, o) := hnt_scan c r data tok in (e :: es, o)
+      else match lvl m with EXC => ([], NtErr e) | _ => ([e], NtStop) end
+  | FData b :: r => match data with Some _ => ([], NtMulti) | None => hnt_scan c r (Some b) tok end
+  | FErr e :: _ => ([], NtErr (err_event e))
+  | FToken t :: r => hnt_scan c r data (Some t)
+  | _ :: r => hnt_scan c r data tok
+  end.
+
 Definition suspended (i : hit) : bool := match i with HPend | HCont _ => true | _ => false end.
 
 Definition hstep (fixed : bool) (cfg : httpcfg) (sts : list step) (c : cb) (o : op) (st : hst) : seg * hst :=
@@ -382,6 +403,36 @@ Definition hstep (fixed : bool) (cfg : httpcfg) (sts : list step) (c : cb) (o : 
            | None => (([], []), st')
            | Some i => (([], [CCancel i]), st')                      (* POST .../exchange with CANCEL_KEY: on_cancel, empty reply *)
            end
+  | OCancelF delivered =>
+      (* the session is retired BEFORE the request is attempted, so a failing POST changes nothing on the client;
+         the server ran on_cancel iff the request reached it *)
+      let st' := mkh (if fixed then [] else h_pend st) true None true (h_it st) in
+      if h_fin st then (([], []), st')
+      else match h_tok st with
+           | None => (([], []), st')
+           | Some i => (([], if delivered then [CCancel i] else []), st')
+           end
+  | ONext =>
+      match h_pend st with
+      | _ :: _ :: _ => (([EBlocked], []), st)                          (* RuntimeError (several pre-loaded batches): never generated *)
+      | [b] => (([EBatch b], []), h_set_pend st [])
+      | [] =>
+          if h_fin st || match h_tok st with None => true | _ => false end
+          then (([EDone], []), mkh [] true (h_tok st) (h_canc st) (h_it st))
+          else match h_tok st with
+               | None => (([EDone], []), st)
+               | Some t =>
+                   let '(fs, cs) := http_turn cfg (skipn t sts) t (base cfg) in
+                   let '(es, r) := hnt_scan c fs None None in
+                   match r with
+                   | NtOk (Some b) t' => ((es ++ [EBatch b], cs), h_set_tok st t')
+                   | NtOk None t' => ((es ++ [EDone], cs), mkh [] true t' (h_canc st) (h_it st))
+                   | NtErr e => ((es ++ [e], cs), st)
+                   | NtMulti => ((es ++ [EBlocked], cs), st)           (* RuntimeError: never generated (caps None / 1) *)
+                   | NtStop => ((es, cs), st)
+                   end
+               end
+      end
   end.
 
 Definition http_init (cfg : httpcfg) (sp : stream_prog) (h producer : bool) (c : cb) : list event * list call * option hst :=
@@ -450,8 +501,9 @@ Definition refusal (o : op) (sg : seg) : Prop :=
   | OIter k => fst sg = if is_zero k then [] else [refused]      (* k = 0: iter() without next() runs no code *)
   | OExch _ => fst sg = [refused]
   | OResume => fst sg = [refused] \/ fst sg = [EDone]            (* [EDone]: the generator had finished before *)
-  | OClose | OCancel => fst sg = []
+  | ONext => fst sg = [refused] \/ fst sg = [EDone]              (* [EDone]: next_with_token answers (None, None) *)
+  | OClose | OCancel | OCancelF _ => fst sg = []
   end.
 
 (* the HTTP session has been cancelled (cancel() sets _cancelled and _finished) *)
-Definition hK (st : hst) : bool := h_canc st && h_fin st.
+Definition hK (st : hst) : bool := h_canc st && h_fin st && match h_pend st with [] => true | _ => false end.
